@@ -39,6 +39,9 @@ type TPConn struct {
 type TPBody struct {
 	NKeys int      `json:"nkeys"`
 	Conns []TPConn `json:"conns"`
+	// ViaFollower (C10): the connections go to a follower, which forwards every command to the leader
+	// and relays the leader's reply: the same identity rules hold for what the follower hands back
+	ViaFollower bool `json:"via_follower,omitempty"`
 }
 
 func genTextPush(prop string, seed uint64, tier string) *Scenario {
@@ -76,6 +79,7 @@ func genTextPush(prop string, seed uint64, tier string) *Scenario {
 		}
 		body.Conns = append(body.Conns, c)
 	}
+	body.ViaFollower = prop == "C10"
 	raw, _ := json.Marshal(body)
 	sc := &Scenario{Knobs: genKnobs(r), Sched: genSched(r, seed), Body: raw, MaxSimS: 3000}
 	sc.Net.FragPermil = []int{0, 300, 900}[r.Intn(3)]
@@ -126,12 +130,14 @@ type tpConnRun struct {
 	ci   int
 	spec *TPConn
 	done bool
+	addr string
+	prop string
 }
 
 func (cr *tpConnRun) run() {
 	w := cr.w
 	defer func() { cr.done = true }()
-	c, err := newTextClient(w, nil, w.nodes[1].addr, cr.ci)
+	c, err := newTextClient(w, nil, cr.addr, cr.ci)
 	if err != nil {
 		w.harnessErr("textpush conn %d dial: %v", cr.ci, err)
 		return
@@ -149,28 +155,28 @@ func (cr *tpConnRun) run() {
 		v, ok, late := c.doWithin(time.Duration(st.TimeoutS+20)*time.Second, args...)
 		w.logf("TP c%d #%d %v -> %s ok=%v late=%v", cr.ci, si, args, v, ok, late)
 		if late {
-			w.violate("C03", "text_command_never_answered", "text connection %d: command line %d (%s of LockId %x, timeout %d s) was not answered within %d s", cr.ci, si, st.Cmd, l[:3], st.TimeoutS, st.TimeoutS+20)
+			w.violate(cr.prop, "text_command_never_answered", "text connection %d: command line %d (%s of LockId %x, timeout %d s) was not answered within %d s", cr.ci, si, st.Cmd, l[:3], st.TimeoutS, st.TimeoutS+20)
 			return
 		}
 		if !ok {
-			w.violate("C03", "text_connection_lost", "text connection %d: command line %d (%s): the connection ended instead of answering (%v)", cr.ci, si, st.Cmd, c.readErr)
+			w.violate(cr.prop, "text_connection_lost", "text connection %d: command line %d (%s): the connection ended instead of answering (%v)", cr.ci, si, st.Cmd, c.readErr)
 			return
 		}
 		w.probe("tp_commands")
 		if st.Cmd == "PUSH" {
 			w.probe("tp_pushes")
 			if v.Kind != '+' || v.Str != "OK" {
-				w.violate("C03", "text_push_reply", "text connection %d: command line %d: PUSH answered %s instead of +OK", cr.ci, si, v)
+				w.violate(cr.prop, "text_push_reply", "text connection %d: command line %d: PUSH answered %s instead of +OK", cr.ci, si, v)
 			}
 			continue
 		}
 		rep := textLockReply(&ReqRec{}, v)
 		if rep.TextRaw != "" || rep.Result == 0xEE {
-			w.violate("C03", "text_bad_reply", "text connection %d: command line %d (%s) was answered with %s instead of a lock result", cr.ci, si, st.Cmd, v)
+			w.violate(cr.prop, "text_bad_reply", "text connection %d: command line %d (%s) was answered with %s instead of a lock result", cr.ci, si, st.Cmd, v)
 			continue
 		}
 		if rep.LockId != l {
-			w.violate("C03", "text_reply_of_another_request", "text connection %d: command line %d (%s of LockId %x) was answered with the result of the request of LockId %x (result %d): the reply belongs to another request", cr.ci, si, st.Cmd, l[:3], rep.LockId[:3], rep.Result)
+			w.violate(cr.prop, "text_reply_of_another_request", "text connection %d: command line %d (%s of LockId %x) was answered with the result of the request of LockId %x (result %d): the reply belongs to another request", cr.ci, si, st.Cmd, l[:3], rep.LockId[:3], rep.Result)
 			continue
 		}
 		if rep.Result == 0 {
@@ -179,11 +185,11 @@ func (cr *tpConnRun) run() {
 	}
 	// the connection must still be in step: a last round trip
 	if v, ok, late := c.doWithin(20*time.Second, "PING"); late || !ok || v.Kind != '+' {
-		w.violate("C03", "text_connection_out_of_step", "text connection %d: PING after the command lines answered %s (answered: %v, timed out: %v)", cr.ci, v, ok, late)
+		w.violate(cr.prop, "text_connection_out_of_step", "text connection %d: PING after the command lines answered %s (answered: %v, timed out: %v)", cr.ci, v, ok, late)
 	}
 	sleep(200 * time.Millisecond)
 	if len(c.extra) > 0 {
-		w.violate("C03", "text_extra_reply", "text connection %d received %d replies beyond one per command line (first: %s)", cr.ci, len(c.extra), c.extra[0])
+		w.violate(cr.prop, "text_extra_reply", "text connection %d received %d replies beyond one per command line (first: %s)", cr.ci, len(c.extra), c.extra[0])
 	}
 }
 
@@ -196,6 +202,11 @@ func runTextPush(w *World) {
 	node := w.boot(1, w.mkcfg(1, "", ""))
 	var runs []*tpConnRun
 	phase := 0
+	target, prop := node, "C03"
+	var follower *Node
+	if body.ViaFollower {
+		prop = "C10"
+	}
 	end := w.S.Loop(func() bool {
 		switch phase {
 		case 0:
@@ -203,10 +214,24 @@ func runTextPush(w *World) {
 				w.harnessErr("boot failed: %v", node.err)
 				return true
 			}
+			if node.ready && body.ViaFollower {
+				if follower == nil {
+					follower = w.boot(100, w.mkcfg(100, node.addr, ""))
+					target = follower
+				}
+				if follower.err != nil {
+					w.harnessErr("follower boot failed: %v", follower.err)
+					return true
+				}
+				if !follower.ready || follower.sl == nil || follower.sl.state != STATE_FOLLOWER {
+					return false
+				}
+				w.probe("tp_via_follower")
+			}
 			if node.ready {
 				phase = 1
 				for ci := range body.Conns {
-					cr := &tpConnRun{w: w, ci: ci, spec: &body.Conns[ci]}
+					cr := &tpConnRun{w: w, ci: ci, spec: &body.Conns[ci], addr: target.addr, prop: prop}
 					runs = append(runs, cr)
 					ssched.SpawnOn(0, fmt.Sprintf("tpconn%d", ci), cr.run)
 				}
@@ -252,4 +277,8 @@ func init() {
 		Kind   string
 		Weight int
 	}{"textpush", 3})
+	propKinds["C10"] = append(propKinds["C10"], struct {
+		Kind   string
+		Weight int
+	}{"textpush", 1})
 }
